@@ -31,6 +31,7 @@ inferred types and compares them with the model.
 """
 from __future__ import annotations
 
+import json
 import random
 import time
 from concurrent.futures import ThreadPoolExecutor
@@ -172,6 +173,22 @@ def flow_case_key(case: dict) -> str:
     return core.canon({"decl": case["decl"], "toks": case["toks"]}) + "#flow"
 
 
+_FLOW_INTERN: dict[str, Any] = {}
+
+
+def _flow_intern(case: dict) -> dict:
+    """Share the (few distinct) token / type records between the cases: 10^5 parsed functions otherwise take gigabytes."""
+    case["toks"] = [_FLOW_INTERN.setdefault(core.canon(t), t) for t in case["toks"]]
+    case["decl"] = _FLOW_INTERN.setdefault(core.canon(case["decl"]), case["decl"])
+    return case
+
+
+def _flow_digest(case: dict) -> str:
+    import hashlib
+
+    return hashlib.blake2b(flow_case_key(case).encode(), digest_size=12).hexdigest()
+
+
 def flow_observe(cases: list[dict], first_tid: int = 1, procs: int = core.NCPU) -> list[dict]:
     items = [(first_tid + i, c) for i, c in enumerate(cases)]
     chunks = [items[i : i + 120] for i in range(0, len(items), 120)]
@@ -306,7 +323,12 @@ def flow_finish(check: core.Check, started: dict) -> None:
     for name, res in results:
         core.require_ok(res, f"ConstraintFlow {name}")
         check.add_tlc(f"flow:{name} (InvFlowEmit)", res)
-        cases = [c for c in core.emitted_json(res) if "toks" in c]
+        cases = []
+        for line in res.stdout.splitlines():       # as core.emitted_json, but interning while parsing
+            if line.startswith('"{'):
+                c = json.loads(json.loads(line))
+                if "toks" in c:
+                    cases.append(_flow_intern(c))
         res.stdout = ""
         consts = _flow_cfg_constants(f"ConstraintFlow.{name}.cfg")
         fl["slices"][name] = {
@@ -316,7 +338,7 @@ def flow_finish(check: core.Check, started: dict) -> None:
             "with_constraint_dropped_by_origin_guard": sum(1 for c in cases if c["drops"] > 0),
         }
         for c in cases:
-            all_cases.setdefault(flow_case_key(c), dict(c, slice=name))
+            all_cases.setdefault(_flow_digest(c), dict(c, slice=name))
     cases = list(all_cases.values())
     if not cases:
         raise core.MachineryError("no flow functions emitted")
@@ -336,7 +358,7 @@ def flow_finish(check: core.Check, started: dict) -> None:
         cases = must + rnd.sample(rest, min(len(rest), limit))
     for c in cases:
         if c["fakes"] > 0 or c["drops"] > 0:
-            check.nontrivial(flow_case_key(c))
+            check.nontrivial(_flow_digest(c))
     plain = [{"decl": c["decl"], "toks": c["toks"]} for c in cases]
     fl["verdict_counts"] = flow_judge(check, plain, "tlc-flow-" + check.tier)
     fl["rule"] = (
